@@ -45,6 +45,9 @@ pub const URIS: &[&str] = &[
     // userinfo in the authority: part of the key as the library builds it; must never merge different ports
     "http://u:p@a.test:8080",
     "http://x@a.test",
+    // websocket schemes: same authority as entries 0 / 1, different origins
+    "ws://a.test",
+    "wss://a.test",
 ];
 
 #[derive(Debug)]
@@ -60,7 +63,9 @@ impl std::error::Error for HErr {}
 enum DialRes {
     Ok { alpn: bool },
     ErrConnect,
-    ErrHandshake,
+    /// the protocol handshake fails; `alpn`: the transport had negotiated h2 before (the connector is told
+    /// "connected, can be shared" and then the handshake dies): must make no difference
+    ErrHandshake { alpn: bool },
 }
 
 #[derive(Default)]
@@ -150,7 +155,7 @@ impl Future for DialFut {
                 Poll::Pending
             }
             Some(DialRes::Ok { alpn }) => Poll::Ready(Ok(HStream { rid: self.rid, alpn, hsfail: false })),
-            Some(DialRes::ErrHandshake) => Poll::Ready(Ok(HStream { rid: self.rid, alpn: false, hsfail: true })),
+            Some(DialRes::ErrHandshake { alpn }) => Poll::Ready(Ok(HStream { rid: self.rid, alpn, hsfail: true })),
             Some(DialRes::ErrConnect) => Poll::Ready(Err(HErr("dialfail"))),
         }
     }
@@ -476,7 +481,8 @@ async fn run_case(line: String) -> String {
                     "o" => DialRes::Ok { alpn: false },
                     "a" => DialRes::Ok { alpn: true },
                     "c" => DialRes::ErrConnect,
-                    _ => DialRes::ErrHandshake,
+                    "H" => DialRes::ErrHandshake { alpn: true },
+                    _ => DialRes::ErrHandshake { alpn: false },
                 };
                 let wk = {
                     let mut g = w.lock().unwrap();
